@@ -929,6 +929,11 @@ fn sweep_inspection_commands(cx: &mut Ctx, dir: &Path) {
         ("leaves a dangling symlink", sh("ln -s /nonexistent dangling")),
         ("leaves a symlink to the working directory", sh("ln -s . loop")),
         ("leaves a directory whose name is not UTF-8", sh("mkdir \"$(printf 'd\\377')\" && touch \"$(printf 'd\\377')/f\"")),
+        ("leaves a symlink to /dev/zero", sh("ln -s /dev/zero zero")),
+        ("leaves a symlink to /dev/urandom", sh("ln -s /dev/urandom rnd")),
+        ("leaves a symlink to /dev/null", sh("ln -s /dev/null nul")),
+        ("leaves a fifo and a symlink to it", sh("mkfifo fifo && ln -s fifo tofifo")),
+        ("leaves a symlink to a directory of devices", sh("ln -s /dev/pts pts")),
         ("removes the working directory", sh("rm -rf \"$PWD\"")),
     ];
     let rule_sets: Vec<(&str, Vec<ArtifactRule>)> = vec![("no rules", vec![]), ("ALLOW *.link, DISALLOW *", vec![ArtifactRule::Allow("*.link".into()), ArtifactRule::Disallow("*".into())]), ("MATCH * WITH PRODUCTS FROM s", vec![ArtifactRule::Match { pattern: "*".into(), in_src: None, with: Artifact::Products, in_dst: None, from: "s".into() }])];
@@ -1118,7 +1123,7 @@ pub fn run(tier: Tier) -> i32 {
     acc.sample(|| json!({"sweep": "adversarial-verify", "layout": "step \"[\" threshold 4294967295", "link_file": "keyid with a multi-byte character across byte 8"}));
     c.acc = acc;
     c.rule = format!(
-        "sweeps: (1) every byte string of length <= {} over {{ }} [ ] \" : , 0 - a \\ 0xff into each of {} entry points; (2) every truncation and, at every {}offset, delete / 0x00 / 0x80 / 0xff / low-bit flip / insert 0x30, and every decimal number replaced by 11 boundary spellings, of {} fixtures into the matching entry points; (3) every node of every JSON fixture replaced by each of {} values, deleted, duplicated; (4) hostile artifact paths x hostile patterns x all rule kinds through the rule engine; (5) hostile layouts x hostile link files through in_toto_verify in a private cwd; (7) every decoder on its fixtures while standard output and standard error point at /dev/full; (6) link-directory entries that are not regular UTF-8 files (0xff bytes, BOM, UTF-16, 1 MiB of brackets, a directory / dangling / self-referential symlink / unreadable file named like a link file), delegation trees that are self-similar (sub-directory symlinked to its parent; 8 / 64 / 300 real levels) or hostile below the first level, and record_artifact / record_artifacts on paths that name no readable file (the builder methods add_material / add_product take an operator-chosen path, return no Result and are outside this property). (8) a satisfied step followed by an inspection whose command is unusual (nothing to run, no such executable, a directory, NUL in an argument, exit 3 / 255, killed by a signal, output that is not UTF-8 or is large, entries left in the working directory whose names are not UTF-8 / look like patterns / are dangling or circular symlinks, the working directory removed) x 3 rule sets x with / without a second inspection. Each case also exercises the follow-up calls (verify, prefix, to_bytes, sign). distinct_nontrivial = cases run (each is a distinct input)",
+        "sweeps: (1) every byte string of length <= {} over {{ }} [ ] \" : , 0 - a \\ 0xff into each of {} entry points; (2) every truncation and, at every {}offset, delete / 0x00 / 0x80 / 0xff / low-bit flip / insert 0x30, and every decimal number replaced by 11 boundary spellings, of {} fixtures into the matching entry points; (3) every node of every JSON fixture replaced by each of {} values, deleted, duplicated; (4) hostile artifact paths x hostile patterns x all rule kinds through the rule engine; (5) hostile layouts x hostile link files through in_toto_verify in a private cwd; (7) every decoder on its fixtures while standard output and standard error point at /dev/full; (6) link-directory entries that are not regular UTF-8 files (0xff bytes, BOM, UTF-16, 1 MiB of brackets, a directory / dangling / self-referential symlink / unreadable file named like a link file), delegation trees that are self-similar (sub-directory symlinked to its parent; 8 / 64 / 300 real levels) or hostile below the first level, and record_artifact / record_artifacts on paths that name no readable file (the builder methods add_material / add_product take an operator-chosen path, return no Result and are outside this property). (8) a satisfied step followed by an inspection whose command is unusual (nothing to run, no such executable, a directory, NUL in an argument, exit 3 / 255, killed by a signal, output that is not UTF-8 or is large, entries left in the working directory whose names are not UTF-8 / look like patterns / are dangling or circular symlinks or lead to never-ending special files (/dev/zero, /dev/urandom, a fifo), the working directory removed) x 3 rule sets x with / without a second inspection. Each case also exercises the follow-up calls (verify, prefix, to_bytes, sign). distinct_nontrivial = cases run (each is a distinct input)",
         if thorough { 4 } else { 3 },
         decoders().len(),
         if thorough { "" } else { "(strided) " },
